@@ -12,7 +12,7 @@ Case line (one kernel + its launch arguments), tokens separated by one space:
   attrs        - | '+'-joined: m<a>x<b> (@max_inner_dims(a,b) on the outer-most @outer loop), s<n> (@simd_length(n)),
                r (@restrict on the pointer arguments; only looked at on the first outer block)
   sec flags    N | B (explicit @barrier(); before this inner loop) | n (@nobarrier on this inner loop), joined
-  stmt         L<x>=<e>  X<x>=<e>  O<a>.<d>=<e>  B<a>.<d>=<e>  S<s>.<d>=<e>  A<a>[<e>]+=<e>
+  stmt         L<x>=<e>  X<x>=<e>  O<a>.<d>=<e>  B<a>.<d>=<e>  S<s>.<d>=<e>  A<a>[<e>]+=<e>  A<a>[<e>]++  A<a>[<e>]--
                I(<e>){<stmts;>}{<stmts;>}   F{<stmts;>}   R<j>,<bound>{<stmts;>}
   expr         <int>  l<x>  x<x>  o<k>  i<k>  p<n>  (<e><op><e>) op in + - * < <= == != #   m(<e>,<c>)
                g<a>[<e>]  w<a>.<d>  s<s>[<e>]  t<s>.<d>
@@ -126,8 +126,16 @@ def p_stmt(c):
         c.adv(); a = c.uint(); c.expect("."); d = c.uint(); c.expect("=")
         return ({"O": "SWrOwn", "B": "SWrBlk", "S": "SWrSh"}[ch], a, d, p_expr(c))
     if ch == "A":
-        c.adv(); a = c.uint(); c.expect("["); i = p_expr(c); c.expect("]"); c.expect("+"); c.expect("=")
-        return ("SAtom", a, i, p_expr(c))
+        c.adv(); a = c.uint(); c.expect("["); i = p_expr(c); c.expect("]")
+        two = c.s[c.p:c.p + 2]
+        c.adv(2)
+        if two == "+=":
+            return ("SAtom", a, i, p_expr(c))
+        if two == "++":
+            return ("SAtomInc", a, i)
+        if two == "--":
+            return ("SAtomDec", a, i)
+        raise Bad("atomic form in " + c.s)
     if ch == "I":
         c.adv(); c.expect("("); e = p_expr(c); c.expect(")")
         a = p_block(c); b = p_block(c)
@@ -256,6 +264,8 @@ def show_stmt(s):
         return "%s%d.%d=%s" % ({"SWrOwn": "O", "SWrBlk": "B", "SWrSh": "S"}[t], s[1], s[2], show_expr(s[3]))
     if t == "SAtom":
         return "A%d[%s]+=%s" % (s[1], show_expr(s[2]), show_expr(s[3]))
+    if t in ("SAtomInc", "SAtomDec"):
+        return "A%d[%s]%s" % (s[1], show_expr(s[2]), "++" if t == "SAtomInc" else "--")
     if t == "SIf":
         return "I(%s){%s}{%s}" % (show_expr(s[1]), ";".join(map(show_stmt, s[2])), ";".join(map(show_stmt, s[3])))
     if t == "SFirst":
@@ -355,6 +365,8 @@ class Emit:
                 out.append("%ss%d[%s] = %s;" % (p, s[1], self.sh(s[1], s[2]), self.expr(s[3])))
             elif t == "SAtom":
                 out.append("%s@atomic g%d[%s] += %s;" % (p, s[1], self.expr(s[2]), self.expr(s[3])))
+            elif t in ("SAtomInc", "SAtomDec"):
+                out.append("%s@atomic %sg%d[%s];" % (p, "++" if t == "SAtomInc" else "--", s[1], self.expr(s[2])))
             elif t == "SIf":
                 out.append("%sif (%s != 0) {" % (p, self.expr(s[1])))
                 self.stmts(s[2], ind + 1, out)
